@@ -18,6 +18,7 @@ import (
 	"strings"
 	"sync"
 	"sync/atomic"
+	"time"
 
 	"github.com/apparentlymart/go-versions/versions"
 	"github.com/hashicorp/go-slug/sourceaddrs"
@@ -583,6 +584,152 @@ func (e *bEnv) build(adds []bAdd, wantClose bool) *sourcebundle.Bundle {
 	return bundle
 }
 
+// ---- forced schedules: the order in which concurrent callers pass the builder's lock sites is TLC's ----
+
+type schedKey struct{}
+
+type schedCtx struct {
+	s      *scheduler
+	caller string
+}
+
+type schedItem struct{ caller, site string }
+
+type scheduler struct {
+	mu      sync.Mutex
+	cond    *sync.Cond
+	items   []schedItem
+	ptr     int
+	running string
+	stuck   bool
+}
+
+func newScheduler(sched [][]string) *scheduler {
+	s := &scheduler{}
+	s.cond = sync.NewCond(&s.mu)
+	for _, it := range sched {
+		if len(it) == 2 && (it[1] == "push" || it[1] == "drain") {
+			s.items = append(s.items, schedItem{it[0], it[1]})
+		}
+	}
+	return s
+}
+
+// gate: the caller reached a lock site. Whatever it was granted before is finished; it now waits for its turn.
+func (s *scheduler) gate(caller, site string) {
+	s.mu.Lock()
+	defer s.mu.Unlock()
+	if s.running == caller {
+		s.running = ""
+		s.ptr++
+		s.cond.Broadcast()
+	}
+	deadline := time.Now().Add(10 * time.Second)
+	for !s.stuck && !(s.running == "" && s.ptr < len(s.items) && s.items[s.ptr] == schedItem{caller, site}) {
+		if time.Now().After(deadline) {
+			s.stuck = true
+			s.cond.Broadcast()
+			break
+		}
+		// wake up periodically to notice the deadline
+		go func() { time.Sleep(200 * time.Millisecond); s.cond.Broadcast() }()
+		s.cond.Wait()
+	}
+	s.running = caller
+}
+
+// release: the caller's Add call returned.
+func (s *scheduler) release(caller string) {
+	s.mu.Lock()
+	if s.running == caller {
+		s.running = ""
+		s.ptr++
+	}
+	s.cond.Broadcast()
+	s.mu.Unlock()
+}
+
+var schedHookOnce sync.Once
+
+func installSchedHook() {
+	schedHookOnce.Do(func() {
+		sourcebundle.VerifSched = func(ctx context.Context, site string) {
+			sc, ok := ctx.Value(schedKey{}).(*schedCtx)
+			if !ok || (site != "push" && site != "drain") {
+				return
+			}
+			sc.s.gate(sc.caller, site)
+		}
+	})
+}
+
+// buildScheduled runs each caller's Add calls in its own goroutine and forces the lock-site order of c.Sched.
+func (e *bEnv) buildScheduled(c *bCase) (*sourcebundle.Bundle, bool) {
+	installSchedHook()
+	b, err := sourcebundle.NewBuilder(e.dir, e, e)
+	if err != nil {
+		e.obs.Panic = "NewBuilder: " + err.Error()
+		return nil, true
+	}
+	s := newScheduler(c.Sched)
+	base := e.tracer().OnContext(context.Background())
+	callers := map[string][]bArt{}
+	var order []string
+	for _, a := range c.Adds {
+		if _, ok := callers[a.C]; !ok {
+			order = append(order, a.C)
+		}
+		callers[a.C] = append(callers[a.C], a.Add)
+	}
+	var wg sync.WaitGroup
+	var resMu sync.Mutex
+	anyErr := false
+	for _, cl := range order {
+		wg.Add(1)
+		go func(cl string, adds []bArt) {
+			defer wg.Done()
+			ctx := context.WithValue(base, schedKey{}, &schedCtx{s, cl})
+			for _, a := range adds {
+				var diags sourcebundle.Diagnostics
+				refused := false
+				func() {
+					defer func() {
+						if r := recover(); r != nil {
+							refused = true
+						}
+					}()
+					if a.Src.K == "rem" {
+						diags = b.AddRemoteSource(ctx, e.g.remote(a.Src), bFinder{e, a.F})
+					} else {
+						diags = b.AddRegistrySource(ctx, e.g.registry(a.Src), e.g.vset(a.Src.Allowed), bFinder{e, a.F})
+					}
+				}()
+				resMu.Lock()
+				raw, _ := json.Marshal(a)
+				e.obs.Results = append(e.obs.Results, bResult{C: cl, Add: raw, Refused: refused, Err: diags.HasErrors()})
+				anyErr = anyErr || diags.HasErrors()
+				resMu.Unlock()
+				s.release(cl)
+			}
+		}(cl, callers[cl])
+	}
+	wg.Wait()
+	e.obs.RefusedAfter = true
+	if s.stuck {
+		return nil, false
+	}
+	if anyErr {
+		return nil, true
+	}
+	bundle, err := b.Close()
+	if err != nil {
+		e.obs.CloseErr = err.Error()
+		return nil, true
+	}
+	e.obs.BundleOK = true
+	return bundle, true
+}
+
 // buildConcurrent issues every Add from its own goroutine on one builder.
 func (e *bEnv) buildConcurrent(adds []bAdd) *sourcebundle.Bundle {
 	b, err := sourcebundle.NewBuilder(e.dir, e, e)
@@ -910,7 +1057,23 @@ func builderMain() int {
 					obs.Panic = fmt.Sprint(r)
 				}
 			}()
-			bundle := e.build(c.Adds, c.Closed)
+			var bundle *sourcebundle.Bundle
+			multi := false
+			for _, a := range c.Adds {
+				if a.C != c.Adds[0].C {
+					multi = true
+				}
+			}
+			if multi {
+				var followed bool
+				bundle, followed = e.buildScheduled(&c)
+				if !followed {
+					obs.Panic = "infra: the lock-site schedule chosen by TLC could not be followed (a caller did not reach its next site within 10 s)"
+					return
+				}
+			} else {
+				bundle = e.build(c.Adds, c.Closed)
+			}
 			nd := 0
 			for _, ev := range obs.Events {
 				if ev[0] == "Diag" {
@@ -1004,6 +1167,10 @@ func builderMain() int {
 				}
 			}
 		}()
+		if strings.HasPrefix(obs.Panic, "infra:") {
+			acc.Infra(obs.Panic)
+			return
+		}
 		agree := obs.Panic == "" && evEq(c.Events, obs.Events) && evEq(c.Calls, obs.Calls) &&
 			normResults(c.Results) == normResultsObs(c.Adds, obs.Results) &&
 			obs.BundleOK == (c.Closed && !c.Poisoned) && len(obs.LookupBad) == 0 && len(obs.Unscripted) == 0 &&
